@@ -112,6 +112,7 @@ type Conn struct {
 	consumed int          // client packets the broker has consumed
 	b2c      []byte       // bytes the broker sent, not yet read
 	b2cAll   codec.Stream // everything delivered to the client so far
+	sent     codec.Stream // everything the broker sent so far (read or not)
 	eof      bool         // broker closed its side after the queue drains
 	closed   bool
 	closedBy string
@@ -272,14 +273,28 @@ func (c *Conn) Read(b []byte) (int, error) {
 	c.mu.Lock()
 	armed := c.rdArmed
 	avail := len(c.b2c)
-	mid := c.b2cAll.Tail() != 0
+	mid := c.b2cAll.Tail() != 0 && c.b2cAll.Err == ""
 	c.mu.Unlock()
 	o := c.w.S.Arrive("read", "conn.Read", map[string]any{"c": c.id, "max": len(b), "armed": armed, "avail": avail, "mid": mid})
 	c.mu.Lock()
 	if o.Kind == "free" {
 		// free mode: block until bytes, end of stream or close
+		waited := false
 		for len(c.b2c) == 0 && !c.closed && !c.eof && !c.dead {
-			if !c.rdArmed && c.b2cAll.Tail() != 0 {
+			if c.rdArmed {
+				// the client armed a deadline: in the free world it expires after a while (PauseTimeout)
+				if waited {
+					c.mu.Unlock()
+					c.w.Rec.Emit(Ev{"e": "cr", "c": c.id, "p": me, "n": 0, "err": "timeout", "pk": []any{}, "tail": 0, "armed": true, "ferr": ""})
+					return 0, timeoutErr{}
+				}
+				waited = true
+				c.mu.Unlock()
+				time.Sleep(25 * time.Millisecond)
+				c.mu.Lock()
+				continue
+			}
+			if c.b2cAll.Tail() != 0 && c.b2cAll.Err == "" {
 				c.w.Rec.Emit(Ev{"e": "nodeadline", "c": c.id, "p": me})
 			}
 			c.cond.Wait()
@@ -321,8 +336,9 @@ func (c *Conn) Read(b []byte) (int, error) {
 	}
 	got := c.b2cAll.Feed(b[:n])
 	tail := c.b2cAll.Tail()
+	ferr := c.b2cAll.Err
 	c.mu.Unlock()
-	c.w.Rec.Emit(Ev{"e": "cr", "c": c.id, "p": me, "n": n, "err": errs, "pk": pkList(got), "tail": tail, "armed": armed})
+	c.w.Rec.Emit(Ev{"e": "cr", "c": c.id, "p": me, "n": n, "err": errs, "pk": pkList(got), "tail": tail, "armed": armed, "ferr": ferr})
 	return n, err
 }
 
@@ -336,6 +352,7 @@ func init() {
 // Inject queues broker-to-client bytes.
 func (c *Conn) Inject(b []byte) {
 	c.mu.Lock()
+	c.sent.Feed(b)
 	c.b2c = append(c.b2c, b...)
 	c.cond.Broadcast()
 	c.mu.Unlock()
@@ -455,4 +472,11 @@ func (c *Conn) dropUnconsumed() {
 	if !already {
 		c.w.Rec.Emit(Ev{"e": "bclose", "c": c.id})
 	}
+}
+
+// Aligned reports whether everything the broker sent so far forms whole packets.
+func (c *Conn) Aligned() bool {
+	c.mu.Lock()
+	defer c.mu.Unlock()
+	return c.sent.Tail() == 0 && c.sent.Err == ""
 }
